@@ -1,6 +1,8 @@
 package props
 
 import (
+	"sync"
+	"reflect"
 	"fmt"
 	"math"
 	"sort"
@@ -116,6 +118,36 @@ type c20gen struct {
 	lowerCamel bool
 	timeFmt    string
 	kinds      map[string]bool
+}
+
+var (
+	c20DynMu    sync.Mutex
+	c20DynTypes = map[int]reflect.Type{}
+)
+
+// c20DynType is the t-th struct type of the family: two to four fields whose names, kinds and order depend on t.
+func c20DynType(t int) reflect.Type {
+	c20DynMu.Lock()
+	defer c20DynMu.Unlock()
+	if typ, ok := c20DynTypes[t]; ok {
+		return typ
+	}
+	fields := []reflect.StructField{
+		{Name: fmt.Sprintf("Label%d", t), Type: reflect.TypeOf("")},
+		{Name: fmt.Sprintf("Count%d", t), Type: reflect.TypeOf(0)},
+	}
+	if t%3 == 0 {
+		fields = append(fields, reflect.StructField{Name: fmt.Sprintf("Score%d", t), Type: reflect.TypeOf(0.5)})
+	}
+	if t%4 == 1 {
+		fields = append([]reflect.StructField{{Name: fmt.Sprintf("Alpha%d", t), Type: reflect.TypeOf(0)}}, fields...)
+	}
+	if t%2 == 1 {
+		fields[0], fields[len(fields)-1] = fields[len(fields)-1], fields[0]
+	}
+	typ := reflect.StructOf(fields)
+	c20DynTypes[t] = typ
+	return typ
 }
 
 func (g *c20gen) key(s string) string {
@@ -317,7 +349,39 @@ func (g *c20gen) value(depth int) (interface{}, exp) {
 	if depth <= 0 || g.r.P(2, 5) {
 		return g.scalar()
 	}
-	switch g.r.Intn(13) {
+	switch g.r.Intn(14) {
+	case 13:
+		// one of a thousand struct types made at run time (no program declares as many, but code that is generated, or
+		// a long-lived server, converts values of hundreds of types in one process): field names and order differ
+		// from type to type
+		g.kinds["struct-of-many-types"] = true
+		t := g.r.Intn(1000)
+		typ := c20DynType(t)
+		v := reflect.New(typ).Elem()
+		e := exp{kind: "map", m: map[string]exp{}}
+		for f := 0; f < typ.NumField(); f++ {
+			name := typ.Field(f).Name
+			switch typ.Field(f).Type.Kind() {
+			case reflect.String:
+				sv := g.str()
+				v.Field(f).SetString(sv)
+				e.m[g.key(name)] = exp{kind: "string", s: sv}
+			case reflect.Int:
+				iv := int64(g.r.Intn(2001) - 1000)
+				v.Field(f).SetInt(iv)
+				e.m[g.key(name)] = exp{kind: "int", i: iv}
+			default:
+				fv := float64(g.r.Intn(2001)-1000) / 8
+				v.Field(f).SetFloat(fv)
+				e.m[g.key(name)] = exp{kind: "float", f: fv}
+			}
+		}
+		if g.r.Bool() {
+			p := reflect.New(typ)
+			p.Elem().Set(v)
+			return p.Interface(), e
+		}
+		return v.Interface(), e
 	case 0, 1:
 		g.kinds["[]interface{}"] = true
 		n := g.r.Intn(4)
